@@ -2,9 +2,9 @@
 
 META = dict(
     engine="E-KV",
-    technique="Lean 4 proof on the pure multistore model (simulation between the list-of-IAVL-trees model and a per-height map specification, lifted over all block histories and all interleavings of historical reads) + differential correspondence on the real rootmulti.Store/iavl.Store with historical views held open across later writes and commits",
-    level_text="Kernel-checked theorems (stage A, pure model): every read through a view of a committed height returns what the map committed at that height returns; the answer is unchanged by any later writes/commits on any substore and by any other historical or working reads interleaved (statement over arbitrary event lists); every committed height can be opened and LoadLazyVersion/CacheMultiStoreWithVersion open exactly the tree saved at that height. The Go code is tied to the model on every run: views are opened through LoadLazyVersion, CacheMultiStoreWithVersion, GetImmutable and height queries, kept open while the working multistore is written and committed, and every Get/Has/iteration (incl. iterators left open across later commits and advanced step by step) is compared with the per-height map.",
-    level_note="NOT proved (stage B): heap aliasing in the Go implementation — shared node cache and node DB, shared `versions` map, SaveBranch clearing child pointers, in-place hash memoisation. It is exercised by the harness (iavl node cache sizes default and 2), not modelled. Context.PrevCtx is exercised over a synthetic block store (store part only; the rebuilt header is not checked). The schedule between iterator creation and its first Valid() is outside the claim. Trusted: Lean kernel; axioms propext, Classical.choice, Quot.sound; harness/driver parser. With the optional height cache switched on (node flag, default off) historical reads are wrong in the ways recorded under C10; this check replays them as known findings with their own `hcache-` signatures.",
+    technique="Lean 4 proof, two levels. Stage A: pure multistore model (simulation between the list-of-IAVL-trees model and a per-height map specification, lifted over all block histories and all interleavings of historical reads). Stage B: an explicit-heap model of the Go IAVL (node objects, child pointers, hash memoisation, node DB, LRU node cache, clone / rotate / balance / recursiveSet / recursiveRemove / SaveBranch / GetNode step by step) with a representation predicate, frame rules and an ownership invariant; every heap operation is proved to refine the pure model and to preserve every representation judgement; kernel-evaluated counterexamples on two mutated clone disciplines. Tie: differential correspondence on the real rootmulti.Store/iavl.Store with historical views held open across later writes and commits, plus a verified run-time monitor of the ownership discipline on the real Go heap dumped after every operation through a side-effect-free hook, plus the heap model replayed next to the real heap.",
+    level_text="Kernel-checked theorems. Stage A (pure model): every read through a view of a committed height returns what the map committed at that height returns; the answer is unchanged by any later writes/commits on any substore and by any other historical or working reads interleaved (statement over arbitrary event lists); every committed height can be opened and LoadLazyVersion/CacheMultiStoreWithVersion open exactly the tree saved at that height. Stage B (heap model, any node-cache size, hash function a parameter with injectivity as hypothesis): heap_refines_pure — Set/Remove/SaveVersion/Rollback/WorkingHash/GetImmutable/LazyLoadVersion and reads through held handles with lazy child loading answer what the pure model answers and preserve the ownership invariant, for single operations and whole histories; saved_roots_frozen_heap — any object that represents a tree at any point of any history still represents it after any further operations (and the abstraction function abs returns it); historical_read_stable_heap — a root handle held across arbitrary later operations reads the committed tree; heap_write_once — every object evolves only by the decidable write-once relation cellLe, persisted objects never change, the DB only grows; clone_discipline_needed_rotation / _inplace — without the clone in rotations, resp. with in-place updates of never-persisted inner nodes, concrete histories change a saved version. The Go code is tied to both models on every run: answers through held views vs the per-height map; the real heap (object identity, persisted flag, memoised hash, child pointers, cache/disk resolution) is dumped after every operation and checked with cellLe and the ownership conditions (PROPFAIL heap-*), the abstraction of every dumped root must equal the pure model's tree, and for the first 160 operations of every stream the heap model's own working/lastSaved object shapes and (small caches) LRU queue must equal the dumped ones (DIFF).",
+    level_note="NOT covered by the proofs: concurrency — operations and reads are atomic steps of one sequential history; the iavlIterator goroutine (schedule between iterator creation and its first Valid()) and readers running concurrently with a writer on the shared nodeDB are outside the models (thorough tier: stage-A streams under -race). LoadVersion of an older version on the same tree object and SaveVersion's idempotent re-commit are modelled, kernel-evaluated in a counterexample and exercised by the harness, but are not operations of the refinement theorems. DeleteVersion/pruning/orphan records, batch atomicity, int8 heights are not modelled (pruning = nothing). Hash: injectivity of the node hash on its writeHashBytes input is a hypothesis. Context.PrevCtx is exercised over a synthetic block store (store part only). Trusted: Lean kernel; axioms propext, Classical.choice, Quot.sound; harness, hook and driver parser. With the optional height cache switched on (node flag, default off) historical reads are wrong in the ways recorded under C10; this check replays them as known findings with their own `hcache-` signatures.",
 )
 
 RULE = ("c09: real rootmulti.Store over MemDB, two IAVL substores + one transient store, 24 short colliding keys; steps: set 30% / delete 15% / commit 8% / "
@@ -17,8 +17,8 @@ RULE = ("c09: real rootmulti.Store over MemDB, two IAVL substores + one transien
 def run(ctx):
     ctx.lean_proofs("Props.C09")
     ctx.rule(RULE)
-    ctx.trust("heap aliasing between the working tree and historical views (stage B) is exercised, not proved",
-              "iavlIterator goroutine schedule before the first Valid() is not covered",
+    ctx.trust("stage B is sequential: readers concurrent with a writer and the iavlIterator goroutine schedule before the first Valid() are not covered",
+              "LoadVersion of an older version + idempotent re-commit: modelled and exercised, outside the refinement theorems",
               "Context.PrevCtx is exercised with a synthetic Tendermint block store on MemDB; its header reconstruction is not compared")
     ctx.assume("pruning = nothing (the only mode the app uses; iavl.Store.Commit's release code is commented out): no committed height is ever deleted")
     n = 60000 if ctx.thorough else 2000
@@ -45,6 +45,8 @@ RULE_B = ("c09b (stage B): one real iavl.MutableTree over MemDB, 16 short collid
           "reads 17% (Get, Has, GetByIndex, IterateRange[Inclusive]) through the working tree or a held view; after EVERY step the Go heap below the working root, "
           "lastSaved, every held view and up to 6 saved versions (all of them every 64 steps) is dumped through a side-effect-free hook "
           "(object identity, persisted flag, memoised hash, child pointers, cache/disk resolution of lazily loaded children); "
+          "for the first 160 operations the Lean heap model is replayed next to the real heap and its working/lastSaved object shapes (and, for caches <= 64, "
+          "the LRU queue) must equal the dumped ones; "
           "non-trivial = every line; distinct = distinct trace line")
 
 
